@@ -1,4 +1,4 @@
-use super::swift_utils::{parse_exact_length, parse_swift_chars, parse_uppercase};
+use super::swift_utils::{ensure_ascii, parse_exact_length, parse_swift_chars, parse_uppercase};
 use crate::errors::ParseError;
 use crate::traits::SwiftField;
 use serde::{Deserialize, Serialize};
@@ -32,6 +32,8 @@ impl SwiftField for Field23 {
     where
         Self: Sized,
     {
+        ensure_ascii(input, "Field 23")?;
+
         if input.len() < 4 {
             // Minimum: 3 char function code + 1 char reference
             return Err(ParseError::InvalidFormat {
@@ -203,6 +205,8 @@ impl SwiftField for Field23E {
     where
         Self: Sized,
     {
+        ensure_ascii(input, "Field 23E")?;
+
         if input.len() < 4 {
             return Err(ParseError::InvalidFormat {
                 message: format!(
